@@ -40,13 +40,13 @@ def run(M, rep, tier, only=None):
     orig_rule = rep.rule
 
     def rule(rid, title, floor=0, technique=""):
-        if rid in ("C02.R2", "C02.R6"):
-            return orig_rule(rid.replace("C02.R2", "C17.R3a").replace("C02.R6", "C17.R3b"), title, floor, technique)
+        if rid in ("C02.R2", "C02.R6", "C02.R7"):
+            return orig_rule(rid.replace("C02.R2", "C17.R3a").replace("C02.R6", "C17.R3b").replace("C02.R7", "C17.R3c"), title, floor, technique)
         sub_rules[rid] = True
         return orig_rule("_" + rid, title, 0, technique)
     rep.rule = rule
     orig_ok, orig_bad, orig_check = rep.ok, rep.bad, rep.check
-    ren = {"C02.R2": "C17.R3a", "C02.R6": "C17.R3b"}
+    ren = {"C02.R2": "C17.R3a", "C02.R6": "C17.R3b", "C02.R7": "C17.R3c"}
 
     def fix(rid):
         return ren.get(rid, "_" + rid if not rid.startswith("C17") and not rid.startswith("_") else rid)
